@@ -182,12 +182,18 @@ def execRun (cf : Conf) (g : G) (r : Nat) : StepRes :=
       { g := { rs := upd g.rs r a.1, bst := b.1 }, completed := runDone rc a.1, failedBuilding := false,
         evs := bevs ++ a.2 }
 
-/-- `has_same_executable` (run_id.py:98): `executable` is `None` until the
-command line has been built, so only runs that were started before compare equal -/
-def sameExe (cf : Conf) (g : G) (r q : Nat) : Bool :=
+/-- `has_same_executable` (run_id.py:99-106, repaired): the runs are compared by
+the path and executable configured for their executors, whether or not they
+have been started -/
+def sameExe (cf : Conf) (_g : G) (r q : Nat) : Bool :=
+  (cf.run q).exe == (cf.run r).exe
+
+/-- the pinned tree compared `RunId.executable`, which is `None` until the
+command line of a run has been built: only runs started before compared equal -/
+def sameExePinned (cf : Conf) (g : G) (r q : Nat) : Bool :=
   (g.rs q).cmdBuilt && (cf.run q).exe == (cf.run r).exe
 
-/-- `without_missing_binaries` (executor.py:459-472): runs of the task list with
+/-- `without_missing_binaries` (executor.py:492-506): runs of the task list with
 the same executable are marked to fail immediately and removed -/
 def withoutMissing (cf : Conf) (r : Nat) : G → List Nat → G × List Nat
   | g, [] => (g, [])
@@ -366,6 +372,28 @@ structure Usage where
   expKnown : Bool := true
   machineKnown : Bool := true
 deriving Repr
+
+/-- a positional argument after the configuration file -/
+inductive Arg where
+  | filter (f : FilterExpr)   -- starts with `e:`, `s:` or `t:`
+  | name (known : Bool)       -- anything else: taken for an experiment name, which exists or not
+deriving Repr, DecidableEq
+
+/-- `determine_exp_name_and_filters` (rebench.py:224-233): the first argument is
+the experiment name unless it has a filter prefix (no name: the default
+experiment); every argument with a filter prefix is a filter expression;
+further arguments without one are not looked at -/
+def expKnownOf : List Arg → Bool
+  | .name k :: _ => k
+  | _ => true
+
+def filtersOf : List Arg → List FilterExpr
+  | [] => []
+  | .filter f :: as => f :: filtersOf as
+  | .name _ :: as => filtersOf as
+
+def usageOfArgs (args : List Arg) (schedKnown machineKnown : Bool) : Usage :=
+  { schedKnown := schedKnown, filters := filtersOf args, expKnown := expKnownOf args, machineKnown := machineKnown }
 
 /-- what a usage error ends in (repaired tree: always the user-facing error, exit 3).
 Order as in `ReBench.run`: configuration (experiment, machine, filters) first,
